@@ -80,8 +80,12 @@ def saved_restored(ctx, fn: FunctionInfo, attr: str) -> bool:
             continue
         any_path = True
         good = False
+        from ..util import resolve_namedtuples
         for i, e in restores:
-            recv, val = e.data[0], e.data[2]
+            # the saved values may travel in a record (NamedTuple) between a save and a
+            # restore helper
+            recv = resolve_namedtuples(ctx.repo, e.data[0])
+            val = resolve_namedtuples(ctx.repo, e.data[2])
             # list idiom: recv = elem(L)[0], val = elem(L)[1], L a comprehension capturing attr
             if recv[0] == 'sub' and val[0] == 'sub' and recv[1] == val[1] and \
                     recv[1][0] == 'elem':
